@@ -61,6 +61,8 @@ def deviations(ctx):
                       name="dev_cache_scan", expect_violation=True), None))
     jobs.append((dict(module="ProfCache2", cfg='CONSTANTS\n  NChunks = 3\n  Dev = {"SharedTempName"}\nSPECIFICATION Spec\nINVARIANTS CacheSoundAfterOverlap\nCHECK_DEADLOCK FALSE\n',
                       name="dev_cache_sharedtmp", expect_violation=True), "CacheSoundAfterOverlap"))
+    jobs.append((dict(module="ProfCache", cfg='CONSTANTS\n  NChunks = 4\n  Dev = {"SidecarHash"}\nSPECIFICATION Spec\nINVARIANTS SecondRunSound ValidMeansComplete\nCHECK_DEADLOCK FALSE\n',
+                      name="dev_cache_sidecar", expect_violation=True), None))
     jobs.append((dict(module="ProfCache", cfg='CONSTANTS\n  NChunks = 4\n  Dev = {"ToolFailureIgnored"}\nSPECIFICATION Spec\nINVARIANTS SecondRunSound ValidMeansComplete\nCHECK_DEADLOCK FALSE\n',
                       name="dev_cache_toolfail", expect_violation=True), None))
     dcfg = 'CONSTANTS\n  Nums = {0, 1, 7}\n  TableNums = {0, 1}\n  Dev = %s\n  MaxLines = 3\nSPECIFICATION Spec\nINVARIANTS %s\nCHECK_DEADLOCK FALSE\n'
